@@ -56,7 +56,8 @@ def IsLineAt (val : Bytes) (start : Nat) (L : Bytes) : Prop :=
 
 /-- Block `b` is a true explanation of the sub-match `be = (beg, end)` of a pattern applied to `val`
 under the name `key` by the expression of line `lno`:
-* the head is `conf:lno: key: ` for the first block of an entry and as many blanks afterwards;
+* the head is `conf:lno: key: ` for the first block of an entry and `inspectHeadWidth` blanks (its columns: path and key
+  measured by `width`, the rest in bytes - fix 951a0f1) afterwards;
 * the quoted text is a line `L` of `val` without its leading blanks;
 * if `beg` is an offset of `val` that is not a newline, `L` is the line `beg` lies in;
 * the `$` marker is `width(matched text) - 2` columns after `^`;
@@ -65,12 +66,12 @@ under the name `key` by the expression of line `lno`:
 def ExplainsSub (width : Bytes → Nat → Nat) (home confpath : Bytes) (lno : Nat) (key val : Bytes) (first : Bool)
     (be : Nat × Nat) (b : Block) : Prop :=
   b.head = (if first then inspectPrefix home confpath lno ++ key ++ [58, 32]
-            else spaces (inspectPrefix home confpath lno ++ key ++ [58, 32]).length) ∧
+            else spaces (inspectHeadWidth width home confpath lno key)) ∧
   b.len = width (val.drop be.1) (be.2 - be.1) - 2 ∧
   ∃ start L, IsLineAt val start L ∧ b.quoted = L.drop (nspaces L) ∧
     (be.1 < val.length → val[be.1]? ≠ some 10 → start ≤ be.1 ∧ be.1 < start + L.length) ∧
     (start + nspaces L ≤ be.1 →
-      b.indent = (inspectPrefix home confpath lno ++ key ++ [58, 32]).length +
+      b.indent = inspectHeadWidth width home confpath lno key +
         width (val.drop (start + nspaces L)) (be.1 - (start + nspaces L)))
 
 /-- The blocks `bs` are a true and complete explanation of the entry `mh`: nothing for an entry whose
@@ -230,9 +231,9 @@ def blockOf (width : Bytes → Nat → Nat) (home confpath : Bytes) (lno : Nat) 
   let pre := inspectPrefix home confpath lno ++ key ++ [58, 32]
   let l0 := lineStart val be.1 (val.length + 1) 0
   let lbeg := l0 + nspaces (val.drop l0)
-  { head := if first then pre else spaces pre.length
+  { head := if first then pre else spaces (inspectHeadWidth width home confpath lno key)
     quoted := (val.drop lbeg).takeWhile (· != 10)
-    indent := pre.length + width (val.drop lbeg) (if lbeg ≤ be.1 then be.1 - lbeg else val.length - lbeg)
+    indent := inspectHeadWidth width home confpath lno key + width (val.drop lbeg) (if lbeg ≤ be.1 then be.1 - lbeg else val.length - lbeg)
     len := width (val.drop be.1) (be.2 - be.1) - 2 }
 
 theorem blockOf_explains (width : Bytes → Nat → Nat) (home confpath : Bytes) (lno : Nat) (key val : Bytes) (first : Bool)
@@ -274,7 +275,7 @@ theorem printed_cons_some (s : Sub) (rest : List Sub) (b e : Nat) (h : s.off = s
 theorem go_false (width : Bytes → Nat → Nat) (home confpath : Bytes) (mh : Match) (key val : Bytes) (subs : List Sub) :
     ∀ out : Bytes,
     exprInspect.go width home confpath mh key val subs false
-        (inspectPrefix home confpath mh.lno ++ key ++ [58, 32]).length out =
+        (inspectHeadWidth width home confpath mh.lno key) out =
       out ++ ((printed subs).map (blockOf width home confpath mh.lno key val false)).flatMap Block.text := by
   induction subs with
   | nil => intro out; simp [exprInspect.go, printed]
@@ -297,7 +298,7 @@ theorem go_false (width : Bytes → Nat → Nat) (home confpath : Bytes) (mh : M
 
 theorem go_true (width : Bytes → Nat → Nat) (home confpath : Bytes) (mh : Match) (key val : Bytes) (subs : List Sub) :
     ∀ out : Bytes,
-    exprInspect.go width home confpath mh key val subs true (key.length + 2) out =
+    exprInspect.go width home confpath mh key val subs true (width key key.length + 2) out =
       out ++ (match printed subs with
         | [] => []
         | be :: rest =>
@@ -317,9 +318,8 @@ theorem go_true (width : Bytes → Nat → Nat) (home confpath : Bytes) (mh : Ma
       · simp only [hbe, ↓reduceIte]
         rw [ih, printed_cons_empty s rest b e hoff hbe]
       · have hbe' : (b == e) = false := by simpa using hbe
-        have hP : key.length + 2 + (inspectPrefix home confpath mh.lno).length =
-            (inspectPrefix home confpath mh.lno ++ key ++ [58, 32]).length := by
-          simp only [List.length_append, List.length_cons, List.length_nil]; omega
+        have hP : width key key.length + 2 + inspectPrefixWidth width home confpath mh.lno =
+            inspectHeadWidth width home confpath mh.lno key := rfl
         simp only [hbe', Bool.false_eq_true, ↓reduceIte]
         rw [hP, go_false, printed_cons_some s rest b e hoff hbe']
         simp only [List.flatMap_cons, Block.text, blockOf, len_eq, ↓reduceIte, List.append_assoc]
